@@ -17,11 +17,19 @@ on the result.  `transform(kind, source, filename)` returns the rewritten source
  T18 isinstance(x, (A, B))  ->  isinstance(x, A) or isinstance(x, B)
  T23 `return a if c else b`  ->  if c: return a else: return b
  T26 keyword arguments with effect-free values are sorted by name
+ T35 De Morgan on `not (a and b)` / `not a and not b`
+ T36 integer comparisons of len(): `len(x) > k` -> `len(x) >= k+1` etc.
+ T39 f-strings without format specs -> concatenation with str()
+ T40 dict displays with identifier keys -> dict(k=v)
+ T46 two adjacent independent plain assignments -> one tuple assignment
+ T51 comprehension variables renamed
+ T33 closure-free nested functions lifted to module level
+ T42 `import a.b.c as c` -> `from a.b import c`
 Each transformed copy of the package passes the 85 baseline tests (tools/neutral_mutate.py with VERIF_MUT_TESTS=1)."""
 import ast
 import symtable
 
-KINDS = ["T1", "T2", "T3", "T5", "T6", "T7", "T8", "T9", "T11", "T12", "T13", "T15", "T17", "T18", "T23", "T26"]
+KINDS = ["T1", "T2", "T3", "T5", "T6", "T7", "T8", "T9", "T11", "T12", "T13", "T15", "T17", "T18", "T23", "T26", "T35", "T36", "T39", "T40", "T46", "T51", "T33", "T42"]
 
 
 def pure(e):
@@ -457,12 +465,230 @@ class T26(ast.NodeTransformer):
         return node
 
 
+class T35(ast.NodeTransformer):
+    """De Morgan: not (a and b) -> not a or not b ; not (a or b) -> not a and not b   (and (not a) and (not b) -> not (a or b))"""
+
+    def visit_UnaryOp(self, node):
+        self.generic_visit(node)
+        if isinstance(node.op, ast.Not) and isinstance(node.operand, ast.BoolOp):
+            b = node.operand
+            op = ast.Or() if isinstance(b.op, ast.And) else ast.And()
+            return ast.BoolOp(op=op, values=[ast.UnaryOp(op=ast.Not(), operand=v) for v in b.values])
+        return node
+
+    def visit_BoolOp(self, node):
+        self.generic_visit(node)
+        if all(isinstance(v, ast.UnaryOp) and isinstance(v.op, ast.Not) and not isinstance(v.operand, ast.BoolOp) for v in node.values) and len(node.values) > 1:
+            op = ast.Or() if isinstance(node.op, ast.And) else ast.And()
+            return ast.UnaryOp(op=ast.Not(), operand=ast.BoolOp(op=op, values=[v.operand for v in node.values]))
+        return node
+
+
+class T36(ast.NodeTransformer):
+    """len(x) > k -> len(x) >= k+1 ; len(x) < k -> len(x) <= k-1 ; >= k -> > k-1 ; <= k -> < k+1   (integers)"""
+
+    def visit_Compare(self, node):
+        self.generic_visit(node)
+        if len(node.ops) == 1 and isinstance(node.left, ast.Call) and isinstance(node.left.func, ast.Name) and node.left.func.id == "len" and isinstance(node.comparators[0], ast.Constant) and type(node.comparators[0].value) is int:
+            k = node.comparators[0].value
+            op = node.ops[0]
+            new = {ast.Gt: (ast.GtE, k + 1), ast.Lt: (ast.LtE, k - 1), ast.GtE: (ast.Gt, k - 1), ast.LtE: (ast.Lt, k + 1)}.get(type(op))
+            if new is not None and new[1] >= 0:
+                node.ops = [new[0]()]
+                node.comparators = [ast.Constant(value=new[1])]
+        return node
+
+
+class T39(ast.NodeTransformer):
+    """f"a{x}b" -> "a" + str(x) + "b"   (no conversion, no format spec; not inside another f-string)"""
+
+    def visit_JoinedStr(self, node):
+        parts = []
+        for v in node.values:
+            if isinstance(v, ast.Constant):
+                parts.append(v)
+            elif isinstance(v, ast.FormattedValue) and v.conversion == -1 and v.format_spec is None and not any(isinstance(y, ast.JoinedStr) for y in ast.walk(v.value)):
+                parts.append(ast.Call(func=ast.Name(id="str", ctx=ast.Load()), args=[v.value], keywords=[]))
+            else:
+                return node
+        if not parts or len(parts) < 2:
+            return node
+        out = parts[0]
+        for q in parts[1:]:
+            out = ast.BinOp(left=out, op=ast.Add(), right=q)
+        if not isinstance(parts[0], ast.Constant):
+            out_first = ast.BinOp(left=ast.Constant(value=""), op=ast.Add(), right=parts[0])
+            out = out_first
+            for q in parts[1:]:
+                out = ast.BinOp(left=out, op=ast.Add(), right=q)
+        return out
+
+    def visit_Module(self, node):
+        if any(isinstance(x, ast.Name) and x.id == "str" and not isinstance(x.ctx, ast.Load) for x in ast.walk(node)) or any(isinstance(x, ast.arg) and x.arg == "str" for x in ast.walk(node)):
+            return node
+        self.generic_visit(node)
+        return node
+
+
+class T40(ast.NodeTransformer):
+    """{"a": x, "b": y} -> dict(a=x, b=y)   (identifier keys only, dict not shadowed)"""
+
+    def visit_Dict(self, node):
+        self.generic_visit(node)
+        import keyword
+
+        if node.keys and all(isinstance(k, ast.Constant) and isinstance(k.value, str) and k.value.isidentifier() and not keyword.iskeyword(k.value) for k in node.keys) and len({k.value for k in node.keys}) == len(node.keys):
+            return ast.Call(func=ast.Name(id="dict", ctx=ast.Load()), args=[], keywords=[ast.keyword(arg=k.value, value=v) for k, v in zip(node.keys, node.values)])
+        return node
+
+    def visit_Module(self, node):
+        if any((isinstance(x, ast.Name) and x.id == "dict" and not isinstance(x.ctx, ast.Load)) or (isinstance(x, ast.arg) and x.arg == "dict") for x in ast.walk(node)):
+            return node
+        self.generic_visit(node)
+        return node
+
+
+class T46(_BlockRewriter):
+    """a = x ; b = y  ->  a, b = x, y   (adjacent plain-name assignments, y does not mention a, both effect-free)"""
+
+    def block(self, blk, owner, fld):
+        out = []
+        i = 0
+        while i < len(blk):
+            a = blk[i]
+            b = blk[i + 1] if i + 1 < len(blk) else None
+            if (
+                b is not None
+                and all(isinstance(s_, ast.Assign) and len(s_.targets) == 1 and isinstance(s_.targets[0], ast.Name) for s_ in (a, b))
+                and a.targets[0].id != b.targets[0].id
+                and pure(a.value)
+                and pure(b.value)
+                and not any(isinstance(y, ast.Call) for y in list(ast.walk(a.value)) + list(ast.walk(b.value)))
+                and not any(isinstance(y, ast.Name) and y.id == a.targets[0].id for y in ast.walk(b.value))
+            ):
+                out.append(ast.Assign(targets=[ast.Tuple(elts=[ast.Name(id=a.targets[0].id, ctx=ast.Store()), ast.Name(id=b.targets[0].id, ctx=ast.Store())], ctx=ast.Store())], value=ast.Tuple(elts=[a.value, b.value], ctx=ast.Load())))
+                i += 2
+                continue
+            out.append(a)
+            i += 1
+        return out
+
+
+class T51(ast.NodeTransformer):
+    """comprehension variables are renamed (<v> -> <v>_c) when nothing nested inside binds the same name"""
+
+    def _comp(self, node):
+        self.generic_visit(node)
+        names = {t.id for g in node.generators for t in ast.walk(g.target) if isinstance(t, ast.Name)}
+        inner_binders = set()
+        for x in ast.walk(node):
+            if x is node:
+                continue
+            if isinstance(x, (ast.ListComp, ast.SetComp, ast.DictComp, ast.GeneratorExp)):
+                inner_binders |= {t.id for g in x.generators for t in ast.walk(g.target) if isinstance(t, ast.Name)}
+            if isinstance(x, ast.Lambda):
+                inner_binders |= {a.arg for a in ast.walk(x.args) if isinstance(a, ast.arg)}
+            if isinstance(x, ast.NamedExpr):
+                inner_binders.add(x.target.id)
+        names -= inner_binders
+        # the first iterable is evaluated in the enclosing scope: a use of the name there is another variable
+        first_iter_names = {y.id for y in ast.walk(node.generators[0].iter) if isinstance(y, ast.Name)}
+        names -= first_iter_names
+        if not names:
+            return node
+        for x in ast.walk(node):
+            if isinstance(x, ast.Name) and x.id in names:
+                x.id = x.id + "_c"
+        return node
+
+    visit_ListComp = visit_SetComp = visit_DictComp = visit_GeneratorExp = _comp
+
+
+class T33:
+    """closure-free nested functions (no free variables, not decorated, defined at the top level of their function) are
+    lifted to module level under the same name, when the module does not bind that name"""
+
+    def __init__(self, src, filename):
+        self.table = symtable.symtable(src, filename, "exec")
+
+    def run(self, tree):
+        module_names = set()
+        for x in ast.walk(tree):
+            if isinstance(x, ast.Name) and not isinstance(x.ctx, ast.Load):
+                module_names.add(x.id)
+            elif isinstance(x, (ast.FunctionDef, ast.AsyncFunctionDef, ast.ClassDef)):
+                module_names.add(x.name)
+            elif isinstance(x, ast.alias):
+                module_names.add((x.asname or x.name).split(".")[0])
+            elif isinstance(x, ast.arg):
+                module_names.add(x.arg)
+        counts = {}
+        for x in ast.walk(tree):
+            if isinstance(x, (ast.FunctionDef, ast.AsyncFunctionDef, ast.ClassDef)):
+                counts[x.name] = counts.get(x.name, 0) + 1
+        star = any(isinstance(x, ast.ImportFrom) and any(a.name == "*" for a in x.names) for x in tree.body)
+        if star:
+            return tree
+        new_body = []
+        for top in tree.body:
+            lifted = []
+            holders = [top] if isinstance(top, ast.FunctionDef) else ([m for m in top.body if isinstance(m, ast.FunctionDef)] if isinstance(top, ast.ClassDef) else [])
+            for F in holders:
+                ftab = self._find(self.table if isinstance(top, ast.FunctionDef) else self._find(self.table, top), F)
+                if ftab is None:
+                    continue
+                keep = []
+                for st in F.body:
+                    if isinstance(st, ast.FunctionDef) and not st.decorator_list and counts.get(st.name, 0) == 1 and not st.name.startswith("__"):
+                        gtab = self._find(ftab, st)
+                        stores = sum(1 for y in ast.walk(F) if isinstance(y, ast.Name) and y.id == st.name and not isinstance(y.ctx, ast.Load))
+                        if gtab is not None and not self._has_free(gtab) and stores == 0 and not any(isinstance(y, (ast.Global, ast.Nonlocal)) for y in ast.walk(st)) and not any(isinstance(y, ast.arg) and y.arg == st.name for y in ast.walk(F)):
+                            # names the nested function reads must not be locals of F (symtable says they are global/builtin)
+                            lifted.append(st)
+                            continue
+                    keep.append(st)
+                if keep:
+                    F.body = keep
+                else:
+                    lifted = [x for x in lifted if x not in F.body] and lifted
+                    F.body = keep or [ast.Pass()]
+            new_body.extend(lifted)
+            new_body.append(top)
+        tree.body = new_body
+        return tree
+
+    def _find(self, table, node):
+        if table is None:
+            return None
+        for ch in table.get_children():
+            if ch.get_name() == node.name and ch.get_lineno() == node.lineno:
+                return ch
+        return None
+
+    def _has_free(self, tab):
+        if any(s.is_free() for s in tab.get_symbols()):
+            return True
+        return any(self._has_free(ch) for ch in tab.get_children())
+
+
+class T42(ast.NodeTransformer):
+    """`import a.b.c as c` -> `from a.b import c`"""
+
+    def visit_Import(self, node):
+        if len(node.names) == 1 and node.names[0].asname and "." in node.names[0].name and node.names[0].name.rsplit(".", 1)[1] == node.names[0].asname:
+            mod, last = node.names[0].name.rsplit(".", 1)
+            return ast.ImportFrom(module=mod, names=[ast.alias(name=last, asname=None)], level=0)
+        return node
+
+
 def transform(kind, src, filename):
     tree = ast.parse(src)
     if kind == "T1":
         tree = T1(src, filename).run(tree)
+    elif kind == "T33":
+        tree = T33(src, filename).run(tree)
     else:
-        tree = {"T2": T2, "T3": T3, "T5": T5, "T6": T6, "T7": T7, "T8": T8, "T9": T9, "T11": T11, "T12": T12, "T13": T13, "T15": T15, "T17": T17, "T18": T18, "T23": T23, "T26": T26}[kind]().visit(tree)
+        tree = {"T2": T2, "T3": T3, "T5": T5, "T6": T6, "T7": T7, "T8": T8, "T9": T9, "T11": T11, "T12": T12, "T13": T13, "T15": T15, "T17": T17, "T18": T18, "T23": T23, "T26": T26, "T35": T35, "T36": T36, "T39": T39, "T40": T40, "T46": T46, "T51": T51, "T42": T42}[kind]().visit(tree)
     ast.fix_missing_locations(tree)
     out = ast.unparse(tree)
     compile(out, filename, "exec")
